@@ -29,6 +29,10 @@ func (m *Membership) Unmarshal(bytes []byte) error {
 		return err
 	}
 
+	if len(pbMembership.Channel) == 0 {
+		return fmt.Errorf("incomplete membership data: missing channel name")
+	}
+
 	signer := &dkg.ThresholdSigner{}
 
 	err := signer.Unmarshal(pbMembership.Signer)
